@@ -271,7 +271,7 @@ class Stream:
     """one correspondence stream: a component of the harness + a driver sub-command"""
 
     def __init__(self, component, flavour, quick, thorough, driver=None, driver_args=(), tags=None,
-                 rtol=1e-9, seeds_thorough=8, corpus=None, canon=None, state_tags=()):
+                 rtol=1e-9, seeds_thorough=8, corpus=None, canon=None, state_tags=(), exact=None):
         self.component, self.flavour = component, flavour
         # quick-tier volume: the per-stream figure times QUICK_SCALE (the checks run in seconds, so
         # the every-change tier can afford a few thousand cases per stream)
@@ -285,6 +285,9 @@ class Stream:
         # sections compared only to validate the model's state against the code's (a difference there
         # breaks the correspondence but is not by itself an output the property speaks about)
         self.state_tags = set(state_tags)
+        # driver sub-command of the same model at carrier `Rat` (exact arithmetic, an instance of the ordered-field
+        # hypotheses of the theorems), run on the same annotated operations as a second correspondence
+        self.exact = exact
 
 
 def run_ops(stream, ops_path, wdir, tag):
@@ -414,6 +417,85 @@ def examine(prop, stream, annot, impl, model, origin, collect):
                                             "model-vs-impl-state", k2[1], impl=i[k2[0]], model=m[k2[0]], origin=origin))
 
 
+
+Q_TOK = re.compile(r"^q(-?\d+)/(\d+)$")
+
+
+def q_to_f(line):
+    """`q<num>/<den>` tokens (exact rationals printed by the Rat instance of a driver) -> the nearest binary64 token"""
+    from fractions import Fraction
+    out = []
+    for t in line.split(" "):
+        m = Q_TOK.match(t)
+        if m:
+            try:
+                x = float(Fraction(int(m.group(1)), int(m.group(2))))
+            except OverflowError:
+                x = float("inf") if int(m.group(1)) > 0 else float("-inf")
+            if x == 0:
+                x = 0.0
+            out.append("f" + str(struct.unpack("<Q", struct.pack("<d", x))[0]))
+        else:
+            out.append(t)
+    return " ".join(out)
+
+
+def exact_step(stream, annot_lines, impl, model, wdir, tag, collect, tier="quick"):
+    """second correspondence: the same model definitions instantiated at `Rat` — a carrier that satisfies the hypotheses the
+    theorems are proved under — against the implementation, step by step, on the property's alphabet and the state sections.
+    Exact results are rounded to binary64 once, at the comparison. A step where the binary64 instance agrees with the code
+    and the exact instance does not is where rounding decides (a floor or a comparison at a boundary): it is counted and
+    sampled in the evidence, never reported as a violation (the theorems are about exact arithmetic, DESIGN §4)."""
+    exact = os.path.join(wdir, f"{tag}.exact")
+    # quick tier: the first third of the cases (exact rationals are slower than binary64); thorough: all of them
+    ca_all = split_cases(annot_lines)
+    ncase = len(ca_all) if tier == "thorough" else max(1, len(ca_all) // 3)
+    nlines = sum(len(c) for c in ca_all[:ncase])
+    annot_lines, impl, model = annot_lines[:nlines], impl[:nlines], model[:nlines]
+    annot = os.path.join(wdir, f"{tag}.annot-exact")
+    with open(annot, "w") as f:
+        f.write("\n".join(annot_lines) + "\n")
+    with open(annot) as fin, open(exact, "w") as fout:
+        p = subprocess.run([DRIVER, stream.exact] + stream.driver_args, stdin=fin, stdout=fout, stderr=subprocess.PIPE, text=True)
+    if p.returncode != 0:
+        raise CheckError(f"driver failed ({stream.exact}): {p.stderr[-500:]}")
+    ex = [q_to_f(l.rstrip("\n")) for l in open(exact)]
+    ca, ci, cm, ce = split_cases(annot_lines), split_cases(impl), split_cases(model), split_cases(ex)
+    st = collect.setdefault("exact", {"driver": {}, "cases": 0, "cases_agreeing_throughout": 0, "steps": 0, "steps_agreeing": 0,
+                                      "cases_where_rounding_decides": 0, "cases_where_both_instances_differ": 0, "samples": []})
+    st["driver"][stream.exact] = st["driver"].get(stream.exact, 0) + 1
+    if not (len(ca) == len(ci) == len(cm) == len(ce)):
+        raise CheckError(f"exact run: case structure differs: {len(ca)} {len(ci)} {len(cm)} {len(ce)}")
+    tags = None if stream.tags is None else set(stream.tags) | set(stream.state_tags)
+    for a, i, m, e in zip(ca, ci, cm, ce):
+        if not (len(a) == len(i) == len(m) == len(e)):
+            continue
+        st["cases"] += 1
+        bad = None
+        for k in range(len(a)):
+            if has_non_finite(i[k]):
+                break
+            st["steps"] += 1
+            why = line_eq(i[k], e[k], tags, stream.rtol, stream.canon)
+            if why is not None:
+                bad = (k, why)
+                break
+            st["steps_agreeing"] += 1
+        if bad is None:
+            st["cases_agreeing_throughout"] += 1
+            continue
+        k, why = bad
+        float_agrees = line_eq(i[k], m[k], tags, stream.rtol, stream.canon) is None
+        st["cases_where_rounding_decides" if float_agrees else "cases_where_both_instances_differ"] += 1
+        # is the first difference a number (a cancelled balance, a last bit) or a discrete output (an event, a share count after floor)?
+        numeric = bool(re.search(r"impl f\d+ model f\d+$", why))
+        key = "first_difference_is_a_number" if numeric else "first_difference_is_discrete"
+        st[key] = st.get(key, 0) + 1
+        if len(st["samples"]) < 3:
+            st["samples"].append({"component": stream.component, "step": k, "why": why, "op": a[k][:300],
+                                  "binary64_instance_agrees_with_the_code": float_agrees})
+
+
 def still_fails(prop, stream, ops_lines, wdir, want_kind, want_clause):
     p = os.path.join(wdir, "shrink.ops")
     with open(p, "w") as f:
@@ -510,6 +592,8 @@ def correspondence_step(prop, tier, seed, wdir, log):
                 merge_stats(collect["gen_stats"], {f"{stream.component}.{k}": v for k, v in gst.items()})
                 merge_stats(collect["run_stats"], {f"{stream.component}.{k}": v for k, v in rst.items()})
                 examine(prop, stream, annot, impl, model, f"gen seed={sd} flavour={stream.flavour}", collect)
+                if stream.exact:
+                    exact_step(stream, annot[1], impl, model, wdir, f"s{si}-{sd}", collect, tier)
                 runs.append((annot[0], annot[1], impl))
         if hasattr(prop, "extra"):
             prop.extra(stream, runs, wdir, tier, collect)
